@@ -687,6 +687,72 @@ pub fn g_rep(w: &mut W, rng: &mut Rng, n_cases: u64, len: u64) {
 }
 
 // ---------------------------------------------------------------------------------------
+// G-long: one long capture-free game per shard (histories of several hundred entries): two pieces wander, every
+// state's full record is compared after every action (S line), all queries every 16th state.
+
+pub fn g_long(w: &mut W, rng: &mut Rng, actions: u64) {
+    let mut cells: [Cell; 64] = [None; 64];
+    cells[4 * 8 + 1 + rng.below(3) as usize] = Some((true, KINDS[1 + rng.below(5) as usize]));
+    cells[3 * 8 + 5 + rng.below(2) as usize] = Some((false, KINDS[1 + rng.below(5) as usize]));
+    cells[7 * 8] = Some((true, Piece::Rabbit));
+    cells[7] = Some((false, Piece::Rabbit));
+    let text = diagram(&cells, 2 + rng.below(3), rng.chance(1, 2));
+    w.begin("long");
+    let mut gs = match w.init_pos(&text) {
+        Some(g) => g,
+        None => {
+            w.end();
+            return;
+        }
+    };
+    w.watch(&gs, 0);
+    for n in 0..actions {
+        if gs.current_step() == 0 && gs.is_terminal().is_some() {
+            break;
+        }
+        let acts = gs.valid_actions();
+        if acts.is_empty() {
+            break;
+        }
+        // non-rabbit steps that keep away from the other piece and from traps; pass after one or two steps
+        let quiet: Vec<Action> = acts
+            .iter()
+            .cloned()
+            .filter(|a| match a {
+                Action::Move(sq, d) => {
+                    let i = sq.index() as usize;
+                    let dest = match d {
+                        Direction::Up => i.wrapping_sub(8),
+                        Direction::Down => i + 8,
+                        Direction::Left => i.wrapping_sub(1),
+                        Direction::Right => i + 1,
+                    };
+                    gs.piece_board().bits_by_piece_type(Piece::Rabbit) & (1u64 << i) == 0 && !is_enemy_move(&gs, a) && !TRAPS.contains(&dest)
+                }
+                _ => false,
+            })
+            .collect();
+        let a = if gs.current_step() >= 1 && acts.contains(&Action::Pass) && rng.chance(2, 3) {
+            Action::Pass
+        } else if !quiet.is_empty() {
+            quiet[rng.below(quiet.len() as u64) as usize]
+        } else {
+            acts[rng.below(acts.len() as u64) as usize]
+        };
+        match w.act(&gs, &a) {
+            Some(nx) => gs = nx,
+            None => break,
+        }
+        if n % 16 == 15 {
+            w.watch(&gs, 0);
+        }
+    }
+    w.watch(&gs, 0);
+    w.stat("long.history_len", gs.as_play_phase().map(|p| p.hash_history().len() as u64).unwrap_or(0));
+    w.end();
+}
+
+// ---------------------------------------------------------------------------------------
 // G-seek: repetition seeker.  Tiny interacting material; at every turn start the whole turn tree (through the
 // rule-only lists) is searched for turns that re-create a position already seen at a turn start of the case -
 // restoring what the opponent just did by a push or pull, or shuttling - and such a turn is played with high
